@@ -1,4 +1,6 @@
 """C10 — Results depend on what is declared, not on file layout or on the run"""
+import json
+import random
 from fractions import Fraction
 from .. import core, epflow, gen, metacheck, oracles
 from .c11 import text_of, fmt_any
@@ -24,6 +26,23 @@ def line_of(kind, kw, omit_id0=False, pad=""):
 
 
 def variant_text(rng, b, kind):
+    """the rewritten data lines, with the metadata lines of the base file: in front of them, or (reorder) anywhere among them"""
+    text = variant_data_text(rng, b, kind)
+    meta = list(getattr(b, "meta_lines", []))
+    if not meta:
+        return text
+    if kind != "reorder":
+        bom = text.startswith("\ufeff")
+        nl = "\r\n" if "\r\n" in text else "\n"
+        return ("\ufeff" if bom else "") + nl.join(meta) + nl + (text[1:] if bom else text)
+    mrng = random.Random("c10-place-%d" % len(text))
+    ls = text.split("\n")[:-1]
+    for m in meta:
+        ls.insert(mrng.randrange(len(ls) + 1), m)
+    return "\n".join(ls) + "\n"
+
+
+def variant_data_text(rng, b, kind):
     lines = [(k, dict(kw)) for k, kw in b.lines]
     if kind == "reorder":
         rng.shuffle(lines)
@@ -67,6 +86,21 @@ def variant_text(rng, b, kind):
             text = text.replace("\n", "\r\n")
         return text
     raise ValueError(kind)
+
+
+def same_metadata(rel):
+    """the relation [rel] between the two evaluations, and the same metadata read from the two files"""
+    def f(eb, ev, base, var):
+        bad = rel(eb, ev, base, var)
+        try:
+            ma = sorted(json.dumps(m, sort_keys=True) for m in base.impl["comps"]["ok"]["meta"])
+            mb = sorted(json.dumps(m, sort_keys=True) for m in var.impl["comps"]["ok"]["meta"])
+        except (KeyError, TypeError):
+            return bad
+        if ma != mb and not bad:
+            bad = [("the rewritten file is read with other metadata", {"base": ma[:6], "variant": mb[:6]})]
+        return bad
+    return f
 
 
 def order_sensitive_building(rng):
@@ -117,7 +151,12 @@ def make_pairs(rng, count):
                 for _, kw in b.lines:
                     if kw.get("id") == ids[0]:
                         kw["id"] = 0
-        base_text = "\n".join(line_of(kd, kw) for kd, kw in b.lines) + "\n"
+        # metadata lines are part of what is declared: wherever they stand in the file they are read (drawn from a generator of its
+        # own so that the stream of buildings is the one it was before)
+        mrng = random.Random("c10-meta-%d-%d" % (i, len(b.lines)))
+        b.meta_lines = ["#META CTE_AREAREF: %s" % mrng.choice(["200.0", "37.5"]), "#META CTE_KEXP: %s" % mrng.choice(["1.0", "0.5"]),
+                        "#META Autor: \u00d1u\u00f1ez"] if mrng.random() < 0.5 else []
+        base_text = "\n".join(b.meta_lines + [line_of(kd, kw) for kd, kw in b.lines]) + "\n"
         base = epflow.EpCase("b%d" % i, {"text": base_text}, fspec, user, [(k, area, lm)], strip=rng.random() < 0.3, tags=b.tags, want=["acs"])
         variants = []
         for kind in rng.sample(["reorder", "split", "rename", "decorate"], 2) + ["repeat"]:
@@ -127,7 +166,7 @@ def make_pairs(rng, count):
             else:
                 v = epflow.EpCase("b%d%s" % (i, kind[:2]), {"text": variant_text(rng, b, kind)}, fspec, user, [(k, area, lm)],
                                   strip=base.strip, tags=b.tags, want=["acs"])
-            variants.append((v, metacheck.relate_exact() if kind == "repeat" else metacheck.relate_scaled(Fraction(1)), kind))
+            variants.append((v, same_metadata(metacheck.relate_exact() if kind == "repeat" else metacheck.relate_scaled(Fraction(1))), kind))
         pairs.append((base, variants))
     return pairs
 
